@@ -54,10 +54,19 @@ static void put_val(char* out, size_t size, int t, int h)
   else if(!strcmp(kind, "variant"))
   {
     if(!H[t].v[h]) { snprintf(out, size, "[-1]"); return; }
-    String s = ((const Variant&)*H[t].v[h]).toString();
+    // nested one-element lists are written as a prefix of -2 markers followed by the bytes of the innermost value
+    const Variant* cv = H[t].v[h];
     size_t n = snprintf(out, size, "[");
+    int first = 1;
+    for(int depth = 0; depth < 16 && cv->getType() == Variant::listType; ++depth)
+    {
+      n += snprintf(out + n, size - n, first ? "-2" : ",-2"); first = 0;
+      if(cv->toList().isEmpty()) { cv = 0; break; }
+      cv = &cv->toList().front();
+    }
+    String s = cv ? cv->toString() : String();
     const char* d = s;
-    for(usize i = 0; i < s.length() && n + 8 < size; ++i) n += snprintf(out + n, size - n, i ? ",%d" : "%d", (int)(unsigned char)d[i]);
+    for(usize i = 0; i < s.length() && n + 8 < size; ++i) { n += snprintf(out + n, size - n, first ? "%d" : ",%d", (int)(unsigned char)d[i]); first = 0; }
     snprintf(out + n, size - n, "]");
   }
   else
@@ -84,7 +93,7 @@ static void run_prog(void* arg)
   for(int i = 0; i < nops[t]; ++i)
   {
     const char* f = prog[t][i];
-    int x = (f[1] == 'a' || !strcmp(f, "aeqb") || !strcmp(f, "aeqa")) ? 0 : 1;      // the handle the op changes
+    int x = (f[1] == 'a' || !strcmp(f, "aeqb") || !strcmp(f, "aeqa")) ? 0 : 1;      // the handle the op changes (la/oa: a, lb/ob: b)
     if(!strcmp(f, "beqa")) x = 1;
     int y = 1 - x;
     sched_event("\"op\":\"c\",\"t\":%d,\"f\":\"%s\"", t, f);
@@ -106,6 +115,10 @@ static void run_prog(void* arg)
       else if(f[0] == 'w') { if(X) X->toString().append(wr); }
       else if(f[0] == 'c') { if(X) X->clear(); }
       else if(f[0] == 'd') { delete X; X = 0; }
+      // la / lb: wrap the handle's value into a one-element list;  oa / ob: assign the handle the first element of
+      // its OWN list (the element lives inside the payload that the assignment releases)
+      else if(f[0] == 'l') { if(X) { List<Variant> l; l.append(*X); *X = l; } }
+      else if(f[0] == 'o') { if(X && ((const Variant&)*X).getType() == Variant::listType && !((const Variant&)*X).toList().isEmpty()) *X = ((const Variant&)*X).toList().front(); }
     }
     else
     {
